@@ -231,6 +231,48 @@ func itoa(n int) string {
 	return string(b[i:])
 }
 
+// ---- sync.Map.Range in a seeded order ----
+
+// RangeSeed is set by the simulator for the duration of a run (0: sorted by key).
+var RangeSeed uint64
+
+// RangeSorted replaces m.Range(f) where the order of the calls is visible from outside (taking
+// execution contexts down at Finish): the entries are visited in an order that is a function of
+// the keys and of one seeded value instead of the runtime's.
+func RangeSorted(m *sync.Map, f func(key, value interface{}) bool) {
+	type kv struct {
+		k    interface{}
+		v    interface{}
+		name string
+	}
+	var all []kv
+	m.Range(func(k, v interface{}) bool {
+		name, _ := k.(string)
+		all = append(all, kv{k, v, name})
+		return true
+	})
+	for i := 1; i < len(all); i++ { // insertion sort by name
+		for j := i; j > 0 && all[j].name < all[j-1].name; j-- {
+			all[j], all[j-1] = all[j-1], all[j]
+		}
+	}
+	if seed := atomic.LoadUint64(&RangeSeed); seed != 0 {
+		h := seed
+		for i := len(all) - 1; i > 0; i-- {
+			h ^= h >> 29
+			h *= 0x94D049BB133111EB
+			h ^= h >> 32
+			j := int(h % uint64(i+1))
+			all[i], all[j] = all[j], all[i]
+		}
+	}
+	for _, e := range all {
+		if !f(e.k, e.v) {
+			return
+		}
+	}
+}
+
 // ---- statement-level preemption points (inserted by tools/stmtpoints) ----
 
 var stmtArmed int32
